@@ -433,7 +433,27 @@ class Ctx:
     raise Unsupported("hash() of a symbolic real")
 
   # ---- text ----------------------------------------------------------
+  def _render_key(self, proxy):
+    """str() of equal values is equal natively; for proxies "equal" is approximated by identical normal-form terms"""
+    try:
+      if isinstance(proxy, Sym):
+        if proxy.c is not None: return ("c", str(proxy.c))
+        return ("r", proxy.n.sexpr(), proxy.d.sexpr() if proxy.d is not None else "1", self.render_mode)
+      if isinstance(proxy, SymInt): return ("i", proxy.iterm().sexpr())
+      if isinstance(proxy, SymComplex): return ("z", self._render_key(proxy.re), self._render_key(proxy.im))
+    except Exception:
+      pass
+    return None
+
   def render(self, proxy):
+    key = self._render_key(proxy)
+    memo = self.__dict__.setdefault("_rendered", {})
+    if key is not None and key in memo: return memo[key]
+    text = self._render_new(proxy)
+    if key is not None: memo[key] = text
+    return text
+
+  def _render_new(self, proxy):
     self.nreg += 1
     k = self.nreg
     if self.render_mode == "ratio" and isinstance(proxy, Sym) and proxy.c is None \
@@ -571,6 +591,22 @@ class Ctx:
       for e, _ in self.pc: sol.add(e)
       if str(sol.check()) != "sat": return None
       full = sol.model()
+      # a path witness should be a *generic* point of the path: non-zero, not +-1, pairwise distinct inputs (a native
+      # run on all-zero inputs agrees with almost anything).  One extra, short query; the plain model is the fall-back.
+      try:
+        vs = [c for k, (kind, c) in self.vars.items() if kind in ("int", "real")][:14]
+        if vs:
+          gen = z3.Solver() if (self.mixed or any("int" in c for _, c in self.pc)) else z3.Tactic("qfnra-nlsat").solver()
+          gen.set("timeout", 1500)
+          for e, _ in self.pc: gen.add(e)
+          rv = [z3.ToReal(c) if c.sort() == z3.IntSort() else c for c in vs]
+          for c in rv:
+            gen.add(c != 0, c != 1, c != -1)
+          for a in range(len(rv)):
+            for b in range(a): gen.add(rv[a] != rv[b], rv[a] != -rv[b])
+          if str(gen.check()) == "sat": full = gen.model()
+      except z3.Z3Exception:
+        pass
     else:
       # the query model may be partial (class-restricted): complete it
       parts = [e for e, _ in self.pc]
@@ -765,8 +801,9 @@ class ConcreteCtx:
 def run_concrete(harness, cfg, model, caps=None, floats=False):
   """Run the harness natively.  -> dict(status, clause, detail, exc)"""
   ctx = ConcreteCtx(model, caps, floats)
+  from symrun.stubs import HermeticPackage
   try:
-    with _Watchdog((caps or {}).get("path_s", 90)):
+    with _Watchdog((caps or {}).get("path_s", 90)), HermeticPackage():
       harness(ctx, cfg)
   except PathTimeout:
     return {"status": "failed", "clause": "termination", "ctx": ctx,
@@ -826,6 +863,11 @@ def _obs_equal(a, b):
     return False
 
 
+def _hermetic():
+  from symrun.stubs import HermeticPackage
+  return HermeticPackage()
+
+
 def explore(harness, cfg, caps, hname="?"):
   stats = Stats()
   prefix = []
@@ -842,7 +884,7 @@ def explore(harness, cfg, caps, hname="?"):
     uncaught = None
     aborted = False
     try:
-      with _Watchdog(caps.get("path_s", 90)):
+      with _Watchdog(caps.get("path_s", 90)), _hermetic():
         harness(ctx, cfg)
     except PathAbort:
       aborted = True
